@@ -24,6 +24,7 @@ SEL = "crates/apollo-parser/src/parser/grammar/selection.rs"
 VAL = "crates/apollo-parser/src/parser/grammar/value.rs"
 
 PRELUDE_1 = r'''
+pub use core::ops::ControlFlow;
 // ---------------- std specs missing from vstd (assumed) ----------------
 pub assume_specification<T: Default>[ core::mem::take::<T> ](dest: &mut T) -> (r: T)
     ensures r == *old(dest), call_ensures(T::default, (), *final(dest));
@@ -31,16 +32,21 @@ pub assume_specification<T: Default>[ core::mem::take::<T> ](dest: &mut T) -> (r
 // ---------------- shims (trusted; listed in the evidence) ----------------
 // SyntaxKind: only the variants the extracted bodies name; the tree *shape* is not modelled.
 #[derive(Clone, Copy, PartialEq, Eq, Structural)]
-pub enum SyntaxKind { COMMENT, WHITESPACE, COMMA, ERROR, IDENT, BANG, L_BRACK, R_BRACK, L_CURLY, R_CURLY, COLON,
-    LIST_TYPE, NAMED_TYPE, NAME, NON_NULL_TYPE, SELECTION_SET, OBJECT_FIELD }
+#[allow(non_camel_case_types)]
+pub enum SyntaxKind { COMMENT, WHITESPACE, COMMA, ERROR, IDENT, BANG, L_BRACK, R_BRACK, L_CURLY, R_CURLY, COLON, EQ, DOLLAR,
+    LIST_TYPE, NAMED_TYPE, NAME, NON_NULL_TYPE, SELECTION_SET, OBJECT_FIELD,
+    INT_VALUE, INT, FLOAT_VALUE, FLOAT, STRING_VALUE, STRING, BOOLEAN_VALUE, true_KW, false_KW, NULL_VALUE, null_KW,
+    ENUM_VALUE, LIST_VALUE, OBJECT_VALUE, DEFAULT_VALUE }
 
 macro_rules! T {
     [!] => { TokenKind::Bang }; ['['] => { TokenKind::LBracket }; [']'] => { TokenKind::RBracket };
     ['{'] => { TokenKind::LCurly }; ['}'] => { TokenKind::RCurly }; [:] => { TokenKind::Colon };
+    [$] => { TokenKind::Dollar }; [=] => { TokenKind::Eq };
 }
 macro_rules! S {
     [!] => { SyntaxKind::BANG }; ['['] => { SyntaxKind::L_BRACK }; [']'] => { SyntaxKind::R_BRACK };
     ['{'] => { SyntaxKind::L_CURLY }; ['}'] => { SyntaxKind::R_CURLY }; [:] => { SyntaxKind::COLON };
+    [$] => { SyntaxKind::DOLLAR }; [=] => { SyntaxKind::EQ };
 }
 // message texts are irrelevant to every contract here
 #[verifier::external_body]
@@ -238,6 +244,25 @@ pub proof fn lemma_advanced_trans(a: &Parser, b: &Parser, c: &Parser)
     lemma_prefix_trans(a.builder.text(), b.builder.text(), c.builder.text());
     assert(c.errors@.subrange(0, a.errors@.len() as int) =~= b.errors@.subrange(0, a.errors@.len() as int));
 }
+// transitivity, usable by `broadcast use` (no per-statement hints needed in straight-line grammar functions)
+pub broadcast proof fn lemma_conserved_trans_auto(a: &Parser, b: &Parser, c: &Parser)
+    requires #[trigger] b.conserved(a), #[trigger] c.conserved(b)
+    ensures c.conserved(a)
+{ lemma_conserved_trans(a, b, c); }
+// the recursion bookkeeping: enter a nesting level (check_and_increment not reached), do conserved work, leave it (decrement)
+pub proof fn lemma_depth_roundtrip(s3: &Parser, s4: &Parser, s5: &Parser, s6: &Parser)
+    requires
+        s3.wf(),
+        s4.builder == s3.builder && s4.pending == s3.pending && s4.current_token == s3.current_token && s4.lexer == s3.lexer && s4.errors == s3.errors && s4.accept_errors == s3.accept_errors,
+        s4.recursion_limit.current == s3.recursion_limit.current + 1 && s4.recursion_limit.limit == s3.recursion_limit.limit && s4.recursion_limit.high >= s3.recursion_limit.high,
+        s5.conserved(s4),
+        s6.builder == s5.builder && s6.pending == s5.pending && s6.current_token == s5.current_token && s6.lexer == s5.lexer && s6.errors == s5.errors && s6.accept_errors == s5.accept_errors,
+        s6.recursion_limit.current == s5.recursion_limit.current - 1 && s6.recursion_limit.limit == s5.recursion_limit.limit && s6.recursion_limit.high == s5.recursion_limit.high,
+    ensures s6.conserved(s3)
+{
+    assert(s4.all_text() =~= s3.all_text());
+    assert(s6.all_text() =~= s5.all_text());
+}
 pub proof fn lemma_conserved_refl(a: &Parser)
     requires a.wf()
     ensures a.conserved(a)
@@ -256,21 +281,26 @@ pub mod name {
     pub fn validate_name(name: &str, p: &mut Parser)
         ensures *final(p) == *old(p),
     { unimplemented!() }
+    // grammar::name::name (peeks, then start_node + bump when the look-ahead is a Name, else err)
     #[verifier::external_body]
     pub fn name(p: &mut Parser)
         requires old(p).wf(),
         ensures final(p).conserved(old(p)), final(p).fuel() <= old(p).fuel(),
+            (old(p).current_token is Some && old(p).current_token->0.kind is Name) ==> final(p).fuel() < old(p).fuel(),
+    { unimplemented!() }
+}
+pub mod variable {
+    use super::*;
+    // grammar::variable::variable: start_node(VARIABLE); bump($); name(p)
+    #[verifier::external_body]
+    pub fn variable(p: &mut Parser)
+        requires old(p).wf(), old(p).ready(),
+        ensures final(p).conserved(old(p)), final(p).fuel() <= old(p).fuel(),
+            old(p).current_token is Some ==> final(p).fuel() < old(p).fuel(),
     { unimplemented!() }
 }
 #[verifier::external_body]
 pub fn selection(p: &mut Parser)
-    requires old(p).wf(),
-    ensures final(p).conserved(old(p)), final(p).fuel() <= old(p).fuel(),
-{ unimplemented!() }
-#[derive(Clone, Copy)]
-pub enum Constness { Const, NotConst }
-#[verifier::external_body]
-pub fn value(p: &mut Parser, constness: Constness, pop_on_error: bool)
     requires old(p).wf(),
     ensures final(p).conserved(old(p)), final(p).fuel() <= old(p).fuel(),
 { unimplemented!() }
@@ -492,13 +522,13 @@ UNIT = {
                  ("after", "self.bump(kind);", "proof { lemma_conserved_trans(&*old(self), &s2, &*self); }"),
                  ("before", "let err = if is_eof {", "let ghost s3 = *self; proof { lemma_conserved_trans(&*old(self), &s1, &s3); }"),
                  ("body_end", None, "proof { lemma_conserved_trans(&*old(self), &s3, &*self); }")]),
-        P("start_node", [WF, ("ensures", "conserved", C), ("ensures", "fuel", F), KEEP, FLUSH,
+        P("start_node", [WF, ("ensures", "conserved", C), ("ensures", "fuel", F), KEEP, FLUSH, ("ensures", "ready", "final(self).ready()"),
                          ("ensures", "stops_at_significant", "final(self).current_token is Some ==> !ignored_kind(final(self).current_token->0.kind)")],
           rewrites=BORROW + [("NodeGuard::new(self.builder.clone())", "NodeGuard::new_shim()", 1)],
           hints=[("after", "self.push_ignored();", "let ghost s1 = *self;"),
                  ("before", "self.skip_ignored();", "let ghost s2 = *self; proof { assert(s2.conserved(&s1)) by { lemma_conserved_refl(&s1); }; lemma_conserved_trans(&*old(self), &s1, &s2); }"),
                  ("after", "self.skip_ignored();", "proof { lemma_conserved_trans(&*old(self), &s2, &*self); }")]),
-        P("start_root_node", [WF, ("ensures", "conserved", C), ("ensures", "fuel", F), KEEP, FLUSH,
+        P("start_root_node", [WF, ("ensures", "conserved", C), ("ensures", "fuel", F), KEEP, FLUSH, ("ensures", "ready", "final(self).ready()"),
                               ("ensures", "stops_at_significant", "final(self).current_token is Some ==> !ignored_kind(final(self).current_token->0.kind)")],
           rewrites=BORROW + [("NodeGuard::new(self.builder.clone())", "NodeGuard::new_shim()", 1)],
           hints=[("before", "self.push_ignored();", "let ghost s1 = *self; proof { assert(s1.conserved(old(self))) by { lemma_conserved_refl(&*old(self)); }; }"),
@@ -594,7 +624,10 @@ UNIT = {
                  ("after", "p.recursion_limit.decrement();", "let ghost s6 = *p; proof { assert(s6.all_text() =~= s5.all_text()); assert(s6.conserved(&s3)) by { assert(s4.builder == s3.builder && s4.errors == s3.errors && s6.builder == s5.builder && s6.errors == s5.errors); }; lemma_conserved_trans(&s0, &s3, &s6); }"),
                  ("after", "p.expect(T!['}'], S!['}']);", "proof { lemma_conserved_trans(&s0, &s6, &*p); }"),
                  ]),
-        G(VAL, "object_field", [GWF, ("ensures", "conserved", "final(p).conserved(old(p))"), ("ensures", "fuel", "final(p).fuel() <= old(p).fuel()")],
+        dict(file=VAL, kind="enum", name="Constness", attrs="#[derive(Clone, Copy)]"),
+        G(VAL, "object_field", [GWF, ("ensures", "conserved", "final(p).conserved(old(p))"),
+                                ("ensures", "fuel", "final(p).fuel() <= old(p).fuel() && ((old(p).current_token is Some && old(p).current_token->0.kind is Name) ==> final(p).fuel() < old(p).fuel())"),
+                                ("decreases", None, "old(p).fuel(), 1int")],
           hints=[("body_start", None, "let ghost s0 = *p;"),
                  ("after", "let _guard = p.start_node(SyntaxKind::OBJECT_FIELD);", "let ghost s1 = *p;"),
                  ("after", "name::name(p);", "let ghost s2 = *p; proof { lemma_conserved_trans(&s0, &s1, &s2); }"),
@@ -607,7 +640,41 @@ UNIT = {
                  ("body_end", None, "proof { if *p == s2 { lemma_conserved_trans(&s0, &s1, &s2); } }"),
                  ],
           rewrites=[("p.recursion_limit.decrement()\n", "p.recursion_limit.decrement();\n", 1)]),
-    
+
+        # ---------------- the value cycle: value -> list_value -> value, value -> object_value -> object_field -> value ----------------
+        G(VAL, "enum_value", [GWF, ("ensures", "conserved", "final(p).conserved(old(p))"),
+                              ("ensures", "fuel", "final(p).fuel() <= old(p).fuel() && ((old(p).current_token is Some && old(p).current_token->0.kind is Name) ==> final(p).fuel() < old(p).fuel())")],
+          hints=[("body_start", None, "broadcast use lemma_conserved_trans_auto;")]),
+        G(VAL, "default_value", [GWF, ("requires", "significant_lookahead", "old(p).current_token is Some && !ignored_kind(old(p).current_token->0.kind)"), ("ensures", "conserved", "final(p).conserved(old(p))"), ("ensures", "fuel", "final(p).fuel() <= old(p).fuel()")],
+          hints=[("body_start", None, "broadcast use lemma_conserved_trans_auto;")]),
+        G(VAL, "value", [GWF, ("ensures", "conserved", "final(p).conserved(old(p))"),
+                         ("ensures", "fuel", "final(p).fuel() <= old(p).fuel() && ((pop_on_error && old(p).current_token is Some) ==> final(p).fuel() < old(p).fuel())"),
+                         ("decreases", None, "old(p).fuel(), 2int")],
+          hints=[("body_start", None, "broadcast use lemma_conserved_trans_auto;")]),
+        G(VAL, "list_value", [GWF, ("requires", "significant_lookahead", "old(p).current_token is Some && !ignored_kind(old(p).current_token->0.kind)"), ("ensures", "conserved", "final(p).conserved(old(p))"),
+                              ("ensures", "fuel", "final(p).fuel() <= old(p).fuel() && (old(p).current_token is Some ==> final(p).fuel() < old(p).fuel())"),
+                              ("decreases", None, "old(p).fuel(), 1int")],
+          n_loops=1,
+          # peek_while inlined (its body: `while let Some(kind) = self.peek() { match run(self, kind) { Break => break, Continue => {} } }`; frame check peek_while_is_the_plain_loop)
+          rewrites=[("p.peek_while(|p, node| {", "while let Some(node) = p.peek() { let __cf: ControlFlow<()> = {", 1),
+                    ("    });\n}", "    }; match __cf { ControlFlow::Break(()) => break, ControlFlow::Continue(()) => {} } }\n}", 1)],
+          loops=[dict(invariant=[("conserved", "p.conserved(old(p)), p.fuel() < old(p).fuel()")],
+                      decreases="p.fuel()")],
+          hints=[("body_start", None, "broadcast use lemma_conserved_trans_auto;"),
+                 ("after", "while let Some(node) = p.peek() { let __cf: ControlFlow<()> = {", "let ghost s3 = *p;"),
+                 ("before", "value(p, constness, true);", "let ghost s4 = *p; proof { assert(p.recursion_limit.current == s3.recursion_limit.current + 1 && p.recursion_limit.current <= p.recursion_limit.limit); /* C01: nesting depth is bounded by the limit */ }"),
+                 ("after", "value(p, constness, true);", "let ghost s5 = *p;"),
+                 ("after", "p.recursion_limit.decrement();", "proof { lemma_depth_roundtrip(&s3, &s4, &s5, &*p); }")]),
+        G(VAL, "object_value", [GWF, ("requires", "significant_lookahead", "old(p).current_token is Some && !ignored_kind(old(p).current_token->0.kind)"), ("ensures", "conserved", "final(p).conserved(old(p))"),
+                                ("ensures", "fuel", "final(p).fuel() <= old(p).fuel() && (old(p).current_token is Some ==> final(p).fuel() < old(p).fuel())"),
+                                ("decreases", None, "old(p).fuel(), 1int")],
+          n_loops=1,
+          rewrites=[("p.peek_while_kind(TokenKind::Name, |p| {", "while let Some(__kind) = p.peek() { if __kind != TokenKind::Name { break; } {", 1),
+                    ("    });\n\n    p.expect", "    } }\n\n    p.expect", 1)],
+          loops=[dict(invariant=[("conserved", "p.conserved(old(p)), p.fuel() < old(p).fuel()")],
+                      decreases="p.fuel()")],
+          hints=[("body_start", None, "broadcast use lemma_conserved_trans_auto;")]),
+
         # ---------------- standalone entry points (C07) ----------------
         P("parse_type", [("requires", "wf", "self_in.wf()"), ("requires", "fresh", "!self_in.eof_consumed()"),
                          ("ensures", "no_error_dropped", "tree.errors@.len() == 0 ==> self_in.errors@.len() == 0")],
